@@ -57,4 +57,8 @@ LC(c, x) == LET lo == Lower(c, x)
                 gaps == {t \in (lo + 1) .. x.hi : t \notin x.recv} IN
             IF gaps = {} THEN x.hi ELSE (CHOOSE g \in gaps : \A g2 \in gaps : g <= g2) - 1
 FullSpan(c, x) == x.bound /\ x.started /\ (x.hi - c.skip) - LC(c, x) >= H
+\* the code keys its per-packet NACK counters by 16-bit number and prunes them only at ticks: when the window moves by a whole
+\* cycle between two ticks, a number that is missing now inherits the count of the number 2^16 before it
+CountAlias(c, x) == /\ c.max > 0 /\ x.bound /\ x.started
+                    /\ \E t \in Missing(c, x) : t \notin DOMAIN x.cnt /\ \E u \in DOMAIN x.cnt : u # t /\ Res(u) = Res(t)
 =============================================================================
